@@ -22,6 +22,48 @@ func dtNode(op string, prec int) wire.Node {
 	return n
 }
 
+// dtPairsCheck: the datetime order on the special values of spec/DTLaws.tla
+// (DST hours, a day boundary in five offsets, times of day with and without
+// offsets): MC_DTPairs checks the laws on the specification for every pair
+// and triple; every ordered pair is then compared on the real code with
+// < == >= through .datetime(), with and without WithTZ, in three context
+// zones, and judged against DateTime.tla (used by C01 and C12; C17 has the
+// large grid).
+func dtPairsCheck(rc *RunCtx, prefixes ...string) {
+	if rc.runMC("MC_DTPairs", []string{"Inv"}, nil, 30*time.Minute) == nil {
+		return
+	}
+	rows, err := readNDJSON[strRow](filepath.Join(rc.Dir, "dtspecial.ndjson"))
+	if err != nil {
+		rc.infra("%v", err)
+		return
+	}
+	u := &ExecUniverse{}
+	va := []wire.Node{{K: "var", S: wire.Bytes("a")}}
+	vb := []wire.Node{{K: "var", S: wire.Bytes("b")}}
+	for _, a := range rows {
+		for _, b := range rows {
+			vars := []wire.Var{{K: wire.Bytes("a"), V: wire.Value{T: "str", S: a.S}}, {K: wire.Bytes("b"), V: wire.Value{T: "str", S: b.S}}}
+			for _, op := range []string{"lt", "eq", "ge"} {
+				l := append(append([]wire.Node{}, va...), dtNode("datetime", -1))
+				r := append(append([]wire.Node{}, vb...), dtNode("datetime", -1))
+				for _, tz := range []struct {
+					use  bool
+					zone string
+				}{{false, "UTC"}, {true, "UTC"}, {true, "+05:30"}, {true, "America/New_York"}} {
+					u.Paths = append(u.Paths, PathRow{Pred: true, Chain: []wire.Node{{K: "bin", Op: op, L: l, R: r}}})
+					u.Docs = append(u.Docs, DocRow{Doc: wire.Null()})
+					u.Vars = append(u.Vars, VarsRow{Vars: vars})
+					n := len(u.Paths)
+					u.Cases = append(u.Cases, CaseRef{PI: n, DI: n, VI: n, Lax: true, UseTZ: tz.use, Zone: tz.zone})
+				}
+			}
+		}
+	}
+	rc.cov("datetime_pairs", map[string]any{"values": len(rows), "cases": len(u.Cases)})
+	rc.execFamily(u, prefixes...)
+}
+
 func init() {
 	checks["C17"] = func(rc *RunCtx) {
 		rc.Ev.Assumptions = append([]string{"time zone database of the sandbox for America/New_York (the specification uses the US rule since 2007)"}, stdAssumptions...)
